@@ -64,7 +64,12 @@ def run(ctx, out, pid, props, projection, n_quick, n_thorough, pool=None, weight
         cases.append(kgen.gen_case(rng, templates=t, nops=nops if not thorough else nops + 4, nres=nres,
                                    p_wrong=p_wrong, weights=weights, pool=pool))
     premise_count = collections.Counter()
-    for case in cases:
+    for ci, case in enumerate(cases):
+        if ci % 9 == 4 and 'render' not in case and not case.get('uuid'):
+            # the same description rendered as STATIC classes whose instances are falsy (define __bool__): the kernel
+            # may not take the truth value of a model object for 'is not None'
+            case['render'] = 'static-falsy'
+            st['falsy_static_cases'] += 1
         case['history'] = [op for op in case['history'] if op[0] in kmodel.MODELLED]
         case, r = clean_case(case, props, need_views)
         st['cases'] += 1
